@@ -119,7 +119,7 @@ func GenConfig(t *rapid.T, tier string, o GenOpts) Config {
 	}
 	marsh := o.Marshalers
 	if marsh == nil {
-		marsh = []string{"json", "json", "json", "custom"}
+		marsh = []string{"json", "json", "json", "custom", "customz"}
 	}
 	formats := o.Formats
 	if formats == nil {
